@@ -582,9 +582,15 @@ func checkResolveFunc(w *World, r *Result) {
 	}
 	// early-exit form: if !(pos inside) { return true }
 	ast.Inspect(fi.Decl.Body, func(x ast.Node) bool {
-		if be, ok := x.(*ast.BinaryExpr); ok && (strings.Contains(es(be), ".Pos() <= pos") || strings.Contains(es(be), "pos < ")) {
-			_ = info
-			byPos = byPos || true
+		// an ordering comparison against the Pos()/End() of a syntax node
+		if be, ok := x.(*ast.BinaryExpr); ok && (be.Op == token.LSS || be.Op == token.LEQ || be.Op == token.GTR || be.Op == token.GEQ) {
+			for _, side := range []ast.Expr{be.X, be.Y} {
+				if call, ok := ast.Unparen(side).(*ast.CallExpr); ok {
+					if fn := calleeOf(info, call); fn != nil && (fn.Name() == "Pos" || fn.Name() == "End") && fn.Pkg() != nil && fn.Pkg().Path() == "go/ast" {
+						byPos = true
+					}
+				}
+			}
 		}
 		return true
 	})
